@@ -50,6 +50,16 @@ type K8sShardsCase struct {
 }
 
 // a second StatefulSet of the same selector, with its own pods' claims
+func hasOther(c interface{}) bool {
+	switch v := c.(type) {
+	case *K8sScaleCase:
+		return v.Other
+	case *K8sShardsCase:
+		return v.Other
+	}
+	return false
+}
+
 func otherSet() []runtime.Object {
 	two := int32(2)
 	o := newSts(&two, 1, 2, 2)
@@ -445,6 +455,17 @@ func runK8s(a Args) *Result {
 		if f["impl"] != "ok" {
 			res.ImplViol = capViol(res.ImplViol, Violation{Property: "C18", Clause: f["impl"], Signature: "C18/" + f["impl"],
 				What: "Spec.C18 clause " + f["impl"] + " false on the real code", Case: full, Line: lines[i]}, 3)
+		}
+		// C19: the same case without the second StatefulSet behaves as the model says (the cases are
+		// enumerated with and without it), so a failure that needs its presence is a replica depending on
+		// another replica
+		if hasOther(it.c) {
+			res.count("cases_with_a_second_statefulset")
+			if f["impl"] != "ok" || f["match"] != "1" {
+				what := "with a second StatefulSet under the same selector, what the manager of this replica lists or scales is no longer what it lists or scales alone (" + ans + ")"
+				res.ImplViol = capViol(res.ImplViol, Violation{Property: "C19", Clause: "otherReplica", Signature: "C19/otherReplica",
+					What: what, Case: full, Line: lines[i]}, 6)
+			}
 		}
 		if f["model"] != "ok" {
 			res.ModelViol = capViol(res.ModelViol, Violation{Property: "C18", Clause: f["model"], Signature: "C18/" + f["model"],
